@@ -15,7 +15,7 @@ import tempfile
 from sim import devices
 from sim.canon import Log, dec_table
 from sim.catalogue import RECIPES, NAMES
-from sim.core import outcome
+from sim.core import outcome, not_a_harness_bug
 from sim.devices import (SimSourceError, SimSourceAbort, SimDiskFull,
                          SOURCE_ERROR_KINDS)
 from sim.gen import gen_table
@@ -384,7 +384,7 @@ def run_case(case):
                 expected = solo_reference(e, stack, case['tables'],
                                           tempdir=td)
             except Exception as ex:
-                why = type(ex).__name__
+                why = type(not_a_harness_bug(ex)).__name__
             gc.collect()
             if why is not None:
                 return outcome('trivial', digest=log.hexdigest(),
